@@ -157,7 +157,9 @@ class Gen:
         if fam == "shift":
             op = r.choice(SHIFTS)
             if r.random() < 0.8:
-                return {"op": op, "a": self.operand("I", depth), "b": const(r.randrange(0, 4)), "t": "I"}
+                # shift amounts below the bitlength: `x >> k` with k >= bitlength returns the plain int 0,
+                # which would make an integer-typed plan variable a constant
+                return {"op": op, "a": self.operand("I", depth), "b": const(r.randrange(0, min(4, self.b))), "t": "I"}
             return {"op": op, "a": self.int_or_const(depth), "b": self.operand("I", depth), "t": "I"}
         if fam == "pow":
             if r.random() < 0.8:
